@@ -288,6 +288,7 @@ func (g *seqGen) genOp() seqOp {
 		if g.rng.Intn(30) == 0 {
 			op.Ld = "panic"
 		}
+		g.adv(&op)
 	case "BulkGet", "BulkRefresh":
 		if g.rng.Intn(6) == 0 {
 			op.CC = 1
@@ -300,6 +301,7 @@ func (g *seqGen) genOp() seqOp {
 		if g.rng.Intn(30) == 0 {
 			op.Shape = "panic"
 		}
+		g.adv(&op)
 	case "SetMaximum":
 		if g.cfg.Max >= hugeLog {
 			op.M = hugeLog + int64(g.rng.Intn(int(g.cfg.Max-hugeLog)+4))
@@ -357,7 +359,31 @@ func genSeqScript(rng *rand.Rand, prof string, idx, ln int) seqScript {
 	if g.cfg.Size == "count" && g.cfg.Expiry != "none" && rng.Intn(2) == 0 && ln > 20 {
 		motifAt = rng.Intn(ln - 10)
 	}
+	// motif "slow bulk load over expired, unswept entries" (finding F24): every key is written with a lifetime of one unit, the deadline passes
+	// without a maintenance run, and a BulkGet of all keys is served by a loader that takes more than two timer ticks: the maintenance that
+	// follows the first installation sweeps the dead nodes of the other keys while their loads are still registered
+	slowAt := -1
+	if g.cfg.Expiry != "none" && g.cfg.Scale >= (1<<20) && rng.Intn(2) == 0 && ln > 20 {
+		slowAt = rng.Intn(ln - 10)
+	}
 	for i := 0; i < ln; i++ {
+		if i == slowAt {
+			all := []int{}
+			for j := 0; j < g.cfg.NK; j++ {
+				all = append(all, j)
+				sc.Ops = append(sc.Ops, seqOp{Op: "Set", K: j, V: g.val(), Ks: []int{}, Supply: []int{}},
+					seqOp{Op: "SetExpiresAfter", K: j, D: 1, Ks: []int{}, Supply: []int{}})
+			}
+			adv := (int64(2) << 30) / g.cfg.Scale
+			if adv < 2 {
+				adv = 2
+			}
+			sc.Ops = append(sc.Ops, seqOp{Op: "Advance", D: 1, Ks: []int{}, Supply: []int{}})
+			bv := g.val()
+			g.next += 2 * g.cfg.NK
+			sc.Ops = append(sc.Ops, seqOp{Op: "BulkGet", V: bv, Ks: all, Supply: append([]int{}, all...), Shape: "map", Adv: adv})
+			total += 1 + adv
+		}
 		if i == motifAt {
 			// motif "full cache, one entry dies early and is looked at before it is swept, then one more arrival": the cache is
 			// exactly full of live entries, so nothing may be lost to size eviction
@@ -394,4 +420,17 @@ func genSeqScript(rng *rand.Rand, prof string, idx, ln int) seqScript {
 		sc.Ops = append(sc.Ops, op)
 	}
 	return sc
+}
+
+// adv: in a quarter of the loading operations the loader itself takes time (the clock moves inside user code): entries that were
+// expired but unswept at the lookup are swept by the maintenance that follows the first installation, deadlines count from the later instant
+func (g *seqGen) adv(op *seqOp) {
+	if op.CC == 1 || g.rng.Intn(4) != 0 {
+		return
+	}
+	if g.prof == "sweep" && g.rng.Intn(2) == 0 {
+		op.Adv = pick(g.rng, int64(64), int64(100), int64(4096))
+		return
+	}
+	op.Adv = int64(1 + g.rng.Intn(3))
 }
